@@ -530,3 +530,6 @@ package smtp
 // C17 (continued): a response that was started is ended on every path (the sequencer wait has no deadline)
 //@ func smtp.Client.cmd (expectCode, format, args) (code, msg, err)
 //@   restores[C17:response-ended] respopen
+
+// C15 (continued): the nonce the exchange continues with starts, byte for byte, with the nonce this client sent
+//@ at smtp.scramAuth.handleServerFirstResponse base64.Encoding.DecodedLen#1 before assert[C15:nonce-is-ours-extended] len(a.nonce) >= len(old(a.nonce)) && len(old(a.nonce)) > 0 && (forall i :: 0 <= i && i < len(old(a.nonce)) ==> a.nonce[i] == old(a.nonce[i]))
